@@ -231,6 +231,27 @@ def handle (op : String) (args : List String) : Option String := do
       if !admissible k then pure "panic" else
       let f ← modelPos k sc
       pure (v3sStr (modelNV k) f)
+  | ["c18", "possample", kn] => do
+      -- model positions of a sample of vertex ids (huge meshes)
+      let (k, i) ← rdKind kn a 0
+      let (sc, i) ← rdScalars k a i
+      let (ids, i) ← rdNats a i
+      done a i
+      if !admissible k then pure "panic" else
+      let f ← modelPos k sc
+      let fs := ids.toList.flatMap fun v => let p := f v; [p.x, p.y, p.z]
+      pure (" ".intercalate (toString fs.length :: fs.map fHex))
+  | ["c18", "holds", "outward_sample"] => do
+      -- `OutwardAt` on a sample of the implementation's triangles, given by their corner positions (9 floats each)
+      let (k, i) ← rdKindArg a 0
+      let (sc, i) ← rdScalars k a i
+      let (pos, i) ← rdFloats a i
+      done a i
+      if !admissible k || pos.size % 9 != 0 || pos.size == 0 then pure "false" else
+      let p := posOf pos
+      let nt := pos.size / 9
+      let ts : List Tri := (List.range nt).map fun t => (3 * t, 3 * t + 1, 3 * t + 2)
+      pure (boolStr (outwardAtB p (ctrOf k sc) ts))
   | ["c18", "nrm", kn] => do
       let (k, i) ← rdKind kn a 0
       let (sc, i) ← rdScalars k a i
